@@ -91,6 +91,10 @@ def save_xye(
     to_save = np.c_[da.coords[coord].values, da.values, np.sqrt(da.variances)]
     if header is GenerateHeader:
         header = _generate_xye_header(da, coord)
+    # A lone carriage return ends a line for every reader that opens the file in
+    # text mode, so it must start a new comment line like '\n' does. Otherwise,
+    # the remainder of the header is read as part of the table.
+    header = header.replace('\r\n', '\n').replace('\r', '\n')
 
     get_logger().info(
         "Saving data with unit %s and coordinate '%s' to XYE file %s",
